@@ -233,7 +233,7 @@ type scanTask struct {
 // keep; 32-bit sources are enumerated completely only when full32 is set.
 func fixedTasks(keep func(*dyn.ConvOp) bool, full32 bool, segs32 int) []scanTask {
 	var ts []scanTask
-	for _, cv := range dyn.Convs {
+	for _, cv := range dyn.AllConvs() {
 		if !keep(cv) {
 			continue
 		}
